@@ -151,10 +151,15 @@ def _pair(ctx, rule: str, wq: str, sq: str, wtotal, stotal, domain_param: str) -
     # the table function of struct formats is part of both siblings' dispatch: read through it (either sibling may index a table
     # of compiled codecs instead)
     inl = {"_pack_fmt": (mod, mod.func("_pack_fmt"))} if mod.has("_pack_fmt") else {}
+    # a sizer that is defined through its writer for some types (`return len(<writer>(same arguments))`): the writer is read
+    # through, so that the comparison is between what is written and the length taken of it
+    sinl = dict(inl)
+    if any(isinstance(c, ast.Call) and isinstance(c.func, ast.Name) and c.func.id == wq for c in ast.walk(sf)):
+        sinl[wq] = (mod, wf)
     for t in TYPES_PLUS:
         b = {N(domain_param): t}
         wpaths = Interp(mod, bindings=b, inline=dict(inl)).run(wf)
-        spaths = Interp(mod, bindings=b, inline=dict(inl)).run(sf)
+        spaths = Interp(mod, bindings=b, inline=dict(sinl)).run(sf)
         writer = [Summary(canon_val(p.valuation), outcome_class(p), wtotal(p), 0) for p in wpaths]
         sizer = [Summary(canon_val(p.valuation), outcome_class(p), stotal(p), 0) for p in spaths]
         report(ctx, rule, f"{sq}~{wq}[{t}]", mod.loc(sf), writer, sizer)
